@@ -68,6 +68,20 @@ BREAKING = {
         sub("src/recovery.rs", "            if header.htype == Type::ST_STATE\n                && last.ack_nr == header.ack_nr", "            if last.ack_nr == header.ack_nr")),
     "ioslice-wrong-second-offset": (["C01"], ["ioslice."],
         sub("src/utils.rs", "    let second_offset = offset - first_offset;", "    let second_offset = offset.saturating_sub(first.len());")),
+    "send-data-no-retry-cap": (["C06"], ["send_data.retry_cap"],
+        sub("src/stream_dispatch.rs", "                == $self.socket_opts.max_segment_retransmissions.get()\n", "                > $self.socket_opts.max_segment_retransmissions.get()\n")),
+    "send-data-wrong-payload-window": (["C06", "C01"], ["send_data.datagram_carries"],
+        sub("src/stream_dispatch.rs", "                let plen = $segment_iter_item.payload_size();", "                let plen = $segment_iter_item.payload_size().min(1400);")),
+    "send-data-restarts-rto-timer": (["C06"], ["send_data.retransmit_timer"],
+        sub("src/stream_dispatch.rs", "                $self.rtte.retransmission_timeout(),\n                false,\n                \"rfc6298 5.1\",", "                $self.rtte.retransmission_timeout(),\n                true,\n                \"rfc6298 5.1\",")),
+    "ack-glue-stale-peer-window": (["C05"], ["ackfx.peer_window"],
+        sub("src/stream_dispatch.rs", "        self.last_remote_window = msg.header.wnd_size;\n", "        self.last_remote_window = self.last_remote_window.max(msg.header.wnd_size);\n")),
+    "ack-glue-rtt-sample-in-recovery": (["C16"], ["ackfx.rtt_sample"],
+        sub("src/stream_dispatch.rs", "        if let (false, Some(rtt)) = (self.recovery.is_recovering(), result.on_ack_result.new_rtt) {", "        if let (_, Some(rtt)) = (self.recovery.is_recovering(), result.on_ack_result.new_rtt) {")),
+    "flush-forgets-ooq-bytes": (["C04"], ["rxflush.remaining_window"],
+        sub("src/stream_rx.rs", "            self.last_remaining_rx_window\n                .saturating_sub(self.ooq.stored_bytes())", "            self.last_remaining_rx_window")),
+    "send-front-skips-window-check": (["C04"], ["rxflush.send_front", "ooq.k.send_front"],
+        sub("src/stream_rx.rs", "        if self.data[0].len_bytes() > window {\n            return None;\n        }", "        if self.data[0].len_bytes() > window.saturating_add(1) {\n            return None;\n        }")),
 }
 
 HARMLESS = {
@@ -104,6 +118,15 @@ HARMLESS = {
         sub("src/stream_dispatch.rs", "                self.timers.retransmit.turn_off(\"MTU probe is not real RTO\");", "                trace!(\"turning off the retransmit timer\");\n                self.timers.retransmit.turn_off(\"MTU probe is not real RTO\");")),
     "helper-extracted-ooq": (["C04"],
         sub("src/stream_rx.rs", "    pub fn is_full(&self) -> bool {\n        self.len == self.capacity\n    }", "    pub fn is_full(&self) -> bool {\n        self.free_slots() == 0\n    }\n\n    fn free_slots(&self) -> usize {\n        self.capacity - self.len\n    }")),
+    "send-data-reorder-timer-arming": (["C06"],
+        lambda root: [sub("src/stream_dispatch.rs", "            // rfc6298 5.1\n            $self.timers.retransmit.arm(\n                $self.this_poll.now,\n                $self.rtte.retransmission_timeout(),\n                false,\n                \"rfc6298 5.1\",\n            );\n\n            $self.timers.remote_inactivity_timer.arm(\n                $self.this_poll.now,\n                $self.socket_opts.remote_inactivity_timeout,\n                false,\n                \"expecting reply on ST_DATA\",\n            );", "            $self.timers.remote_inactivity_timer.arm(\n                $self.this_poll.now,\n                $self.socket_opts.remote_inactivity_timeout,\n                false,\n                \"expecting reply on ST_DATA\",\n            );\n\n            // rfc6298 5.1\n            $self.timers.retransmit.arm(\n                $self.this_poll.now,\n                $self.rtte.retransmission_timeout(),\n                false,\n                \"rfc6298 5.1\",\n            );")(root)]),
+    "send-data-rename-locals": (["C06"],
+        lambda root: [sub("src/stream_dispatch.rs", "            let mut h = [0u8; UTP_HEADER as usize];\n            let hlen = $header.serialize(&mut h)?;", "            let mut hbuf = [0u8; UTP_HEADER as usize];\n            let hlen = $header.serialize(&mut hbuf)?;")(root),
+                      sub("src/stream_dispatch.rs", "                    IoSlice::new(&h[..hlen]),", "                    IoSlice::new(&hbuf[..hlen]),")(root)]),
+    "ack-glue-reorder-independent": (["C05", "C14"],
+        sub("src/stream_dispatch.rs", "        self.last_remote_timestamp = msg.header.timestamp_microseconds;\n        self.last_remote_window = msg.header.wnd_size;\n", "        self.last_remote_window = msg.header.wnd_size;\n        self.last_remote_timestamp = msg.header.timestamp_microseconds;\n")),
+    "flush-extra-trace-and-local": (["C07"],
+        sub("src/stream_rx.rs", "        self.last_remaining_rx_window = remaining_rx_window;\n        Ok(flushed_bytes)", "        let left = remaining_rx_window;\n        trace!(left, \"window after flush\");\n        self.last_remaining_rx_window = left;\n        Ok(flushed_bytes)")),
 }
 
 
